@@ -66,6 +66,7 @@ let run_case (c : case) =
     | ["cmpmode"; _] -> ()
     | ["ptrrep"; _] -> ()
     | ["nestclear"; _] -> ()
+    | ["cmpnest"; _] -> ()     (* the driver's comparator consults another map: no effect on this one *)
     | _ ->
       (match parse_op w with
        | None -> Printf.printf "badop %s\n" (S.concat " " w); dead := true
